@@ -384,8 +384,14 @@ func (h *handler) HandleMessage(ctx context.Context, peerId string, msg drpc.Mes
 
 type dialPolicy struct {
 	refuse bool
-	tags   []string
+	// refuseErr: what a refused dial returns. A dial of its own can time out or be cancelled while the
+	// sender's context is alive, so context-flavoured errors are among them (added after seeded change
+	// C19-6 - Send gives up on the remaining peers when one dial fails with such an error - was missed)
+	refuseErr error
+	tags      []string
 }
+
+var dialErrs = []error{errDialRefused, fmt.Errorf("verif: dial timed out: %w", context.DeadlineExceeded), fmt.Errorf("verif: shared dial cancelled: %w", context.Canceled)}
 
 // OpenStream is the harness's dial function.
 func (h *handler) OpenStream(ctx context.Context, p peer.Peer) (drpc.Stream, []string, int, error) {
@@ -398,6 +404,9 @@ func (h *handler) OpenStream(ctx context.Context, p peer.Peer) (drpc.Stream, []s
 		e.dialRefused++
 		e.notifyLocked()
 		e.mu.Unlock()
+		if pol.refuseErr != nil && !e.torn {
+			return nil, nil, 0, pol.refuseErr
+		}
 		return nil, nil, 0, errDialRefused
 	}
 	fs := e.newStreamLocked(p.Id(), modeHealthy, 0)
